@@ -162,6 +162,10 @@ func runC06(c *an.Check) {
 					okOnly = false
 				}
 			}
+			imp := impureCallsIn(w, fn, alreadyDoneRegion(w, fn, "SwapData.ClaimPreimage"))
+			c.Decide(len(imp) == 0, "C06.R3", cons+" already-paid path", w.Pos(call.Pos()),
+				"a swap whose preimage is already recorded succeeds without consulting outside services",
+				"on re-execution with the preimage already recorded (restart after a successful payment) the action still calls "+strings.Join(imp, "; ")+" before it returns: if that fails, or the payment window has meanwhile closed, the failure edge sends coop_close with the key although the invoice was paid")
 			c.Decide(okOnly, "C06.R3", cons, w.Pos(call.Pos()),
 				"payment is skipped and success returned when the preimage is already recorded",
 				fmt.Sprintf("the branch taken when a preimage is already recorded can still pay or fail (returns %v)", sortedKeysOf(evs)))
